@@ -139,7 +139,7 @@ CHECKS["C18"] = {
 CHECKS["C16"] = {
     "level": "exploration",
     "technique": _TECH + ": minter node and importer node with separate caches on the simulated network; generated mint options; real handshakes naming the session in both dial directions; virtual-time lifetime",
-    "level_text": "Seeded exploration over minting options and both connection directions: node A mints a claim (sinfuls with and without embedded '#', brackets, IPv6 literals and parameters; encryption/integrity toggles; single and multiple ciphers; command lists; lifetimes; long and short versions; peer address set or not), node B imports the claim id into its own cache; the two cache entries must agree on id, key bytes, policy attributes and expiry, and the policy must say what the options asked for; then real client and server handshakes naming the session run B->A and A->B over the simulated network and must resume with exactly request+reply in the clear (no authentication exchange on the wire), exchange a message each way that never appears in clear, and report an authenticated session; an importer whose claim id has one secret character changed gets no application byte accepted by the minter and cannot read its reply; with a lifetime L both directions still work 3 s before L and both refuse 2 s after it (virtual clock), and both caches have dropped the entry. The public form of the claim id must not contain the secret.",
+    "level_text": "Seeded exploration over minting options and both connection directions: node A mints a claim (sinfuls with and without embedded '#', brackets, IPv6 literals and parameters; encryption/integrity toggles; single and multiple ciphers; command lists; lifetimes; long and short versions; peer address set or not), node B imports the claim id into its own cache; the two cache entries must agree on id, key bytes, policy attributes and expiry, and the policy must say what the options asked for; then real client and server handshakes naming the session run B->A and A->B over the simulated network and must resume with exactly request+reply in the clear (no authentication exchange on the wire), exchange a message each way that never appears in clear, and report an authenticated session; an importer whose claim id has one secret character changed gets no application byte accepted by the minter and cannot read its reply; with a lifetime L both directions still work 3 s before L and both refuse 2 s after it (virtual clock), and both caches have dropped the entry. In half the runs both holders of the claim id also derive the file-transfer session (ImportFileTransferSession): same 'filetrans.' id and key on both, encryption and integrity on, resumes both ways and carries traffic, and a holder of a different secret gets nothing accepted. The public form of the claim id must not contain the secret.",
     "level_note": "The render/parse sub-claims are input-only and are asserted as by-products; the claim rests on the two-node, timed behaviour. ImportFileTransferSession is not exercised.",
     "budget": {"quick": 20, "thorough": 600},
     "rule": "a case is one generated option set run through mint, import, 2-7 simulated connections and up to two clock jumps; distinct = distinct event-log hash; non-trivial = scheduler had a choice.",
